@@ -299,6 +299,37 @@ def ghost_shape(rng):
     return shape
 
 
+def fork_shape(rng):
+    """no ghosts, one home: a chain up to a fork point P, two or three children of P, merges of them;
+    the target first fetches P, then the merge (partial overlap exactly at the fork point)"""
+    r = lambda i: b"r%02d" % i  # noqa: E731
+    n0 = rng.randint(1, 3)
+    shape = [("A", [], [])] + [("A", [r(i)], []) for i in range(1, n0)]
+    P = n0
+    kids = rng.randint(2, 3)
+    ids = []
+    nxt = P + 1
+    for k in range(kids):
+        shape.append(("A", [r(P)], []))
+        ids.append(nxt)
+        nxt += 1
+        if rng.random() < 0.4:
+            shape.append(("A", [r(ids[-1])], []))
+            ids[-1] = nxt
+            nxt += 1
+    shape.append(("A", [r(ids[0]), r(ids[1])], []))
+    m = nxt
+    nxt += 1
+    if kids == 3:
+        shape.append(("A", [r(m), r(ids[2])], []))
+        m = nxt
+        nxt += 1
+    if rng.random() < 0.5:
+        shape.append(("A", [r(m)], []))
+        m = nxt
+    return shape, r(P), r(m)
+
+
 # ------------------------------------------------------------------ realisation
 class World:
     """two home repositories of one format + any number of targets, all below one directory"""
@@ -655,6 +686,15 @@ def do_fetch(ctx, W, case, src_name, tgt_name, rev, find_ghosts, mode, batch):
             # the target holds a revision one of whose parents it lacks while the source has it, and the
             # caller did not ask for ghosts to be filled: the data of that parent is needed but not sent
             fam = "fetch-fails-when-target-has-a-ghost-the-source-has:" + outcome.split(":")[1]
+        else:
+            would = A - set(pre_t["revs"])
+            orphan = [p for r_ in would for p in pre_s["revs"][r_][0]
+                      if p not in would and p in pre_s["invs"] and p not in pre_s["revs"] and p not in pre_t["revs"]]
+            if orphan:
+                # the source holds only the inventory of a boundary parent: the stream leaves out texts the
+                # target then misses as compression parents
+                fam = "%s-stream-excludes-inventory-of-ghost-parent" % (
+                    "chk" if fmt_s in GC_FORMATS and fmt_t in GC_FORMATS else "xml")
         V("fetch failed: %s" % outcome, family=fam)
         corrupt = corrupt or fam
     # ---------------- monotone: nothing the target had is changed
@@ -738,6 +778,42 @@ def do_fetch(ctx, W, case, src_name, tgt_name, rev, find_ghosts, mode, batch):
                     if key in pre_s["tparents"] and post_t["tparents"].get(key) != pre_s["tparents"][key]:
                         V("per-file parents of %r differ: source %r target %r"
                           % (key, pre_s["tparents"][key], post_t["tparents"].get(key)))
+                # per-file graph of the ROOT entry
+                rt = post_t["roots"].get(r)
+                if pre_t["rich"] and rt is not None and r in new:
+                    rkey = (rt[0], rt[1])
+                    got_rp = post_t["tparents"].get(rkey)
+                    ps_ = pre_s["revs"][r][0]
+                    if rkey not in post_t["texts"] and rkey in pre_s["texts"]:
+                        if rkey not in reported:
+                            reported.add(rkey)
+                            fam = None
+                            chk_ = fmt_s in GC_FORMATS and fmt_t in GC_FORMATS
+                            for p_ in sorted({q_ for n_ in new for q_ in pre_s["revs"][n_][0] if q_ not in new}):
+                                if p_ in post_t["revs"] or tuple((pre_s["roots"].get(p_) or ())[:2]) != rkey:
+                                    continue
+                                if p_ not in pre_s["revs"]:
+                                    fam = "%s-stream-excludes-inventory-of-ghost-parent" % ("chk" if chk_ else "xml")
+                                    break
+                                if not find_ghosts:
+                                    fam = "%s-stream-excludes-parent-the-target-lacks" % ("chk" if chk_ else "xml")
+                                    break
+                            V("root text %r named by the inventory of %r is not in the target" % (rkey, r), family=fam)
+                            corrupt = corrupt or fam
+                    elif pre_s["rich"]:
+                        want_rp = pre_s["tparents"].get((pre_s["roots"].get(r) or rt)[:2])
+                        if got_rp != want_rp and rkey not in reported:
+                            V("per-file parents of the root %r of %r differ: source %r target %r" % (rkey, r, want_rp, got_rp))
+                    elif rt[1] == r and all(p_ in pre_s["revs"] and p_ in post_t["revs"] for p_ in ps_) \
+                            and all(post_t["roots"].get(p_, (None,))[0] == rt[0] for p_ in ps_):
+                        # root text synthesised by the rich-root upgrade: its parents are the root versions of the
+                        # revision's parents that are heads (no ghosts involved, one root id)
+                        heads_ = [p_ for p_ in ps_ if not any(q_ != p_ and p_ in src_ancestry(pre_s, q_) for q_ in ps_)]
+                        want_rp = tuple(dict.fromkeys((rt[0], p_) for p_ in heads_))
+                        if got_rp is None or tuple(got_rp) != want_rp:
+                            V("per-file parents of the synthesised root text %r are %r, expected %r (the parents of %r "
+                              "that are heads); the target held %r before this fetch"
+                              % (rkey, got_rp, want_rp, r, sorted(set(ps_) & set(pre_t["revs"]))))
                 if r in new:
                     try:
                         ts = Testament.from_revision(srepo, r).as_short_text()
@@ -749,8 +825,6 @@ def do_fetch(ctx, W, case, src_name, tgt_name, rev, find_ghosts, mode, batch):
                             V("testament of %r differs between source and target" % (r,))
         if corrupt or len(ctx.violations) > nviol0:
             W.tainted[tgt_name] = corrupt or "unclassified"
-    if corrupt or len(ctx.violations) > nviol0:
-        W.tainted[tgt_name] = corrupt or "unclassified"
         # ---------------- consistency check
         if W.tainted.get(tgt_name) or W.tainted.get(src_name):
             ctx.count("check-skipped:repository-damaged-by-an-earlier-reported-fetch")
@@ -777,12 +851,6 @@ def do_fetch(ctx, W, case, src_name, tgt_name, rev, find_ghosts, mode, batch):
                         probs["inconsistent_parents"] = keep
                     else:
                         del probs["inconsistent_parents"]
-            if upgraded_root and "inconsistent_parents" in tp:
-                # root texts are generated by the rich-root upgrade, not copied
-                rids_ = {repr(v[0]) for v in post_t["roots"].values()}
-                tp["inconsistent_parents"] = [x for x in tp["inconsistent_parents"] if not any(", %s, " % q in x for q in rids_)]
-                if not tp["inconsistent_parents"]:
-                    del tp["inconsistent_parents"]
             for k, v in tp.items():
                 sv = sp.get(k)
                 worse = (k not in sp) or (isinstance(v, list) and set(v) - set(sv)) or (isinstance(v, int) and v > sv)
@@ -807,6 +875,8 @@ def do_fetch(ctx, W, case, src_name, tgt_name, rev, find_ghosts, mode, batch):
             for kind in ("revs", "invs", "texts", "tparents", "packs"):
                 if post2[kind] != post_t[kind]:
                     V("a second identical fetch changed the target's %s" % kind)
+    if corrupt or len(ctx.violations) > nviol0:
+        W.tainted[tgt_name] = corrupt or "unclassified"
     # ---------------- model line
     root_ids = {v[0] for st in (pre_s, pre_t, post_t) for v in st["roots"].values()}
     nb = numbering([pre_s, pre_t, post_t], extra_revs=[rev])
@@ -858,7 +928,8 @@ def pairs_for(ctx):
     rest = COMPATIBLE[:-1] + THOROUGH_EXTRA[:2]
     k = (3 * ctx.seed) % len(rest)
     rot = rest[k:] + rest[:k]
-    return [("2a", "2a")] + rot[:3]
+    # 2a->2a and one non-rich-root -> rich-root upgrade in every round, plus three rotated pairs
+    return [("2a", "2a"), [("pack-0.92", "2a"), ("knit", "2a")][ctx.seed % 2]] + rot[:3]
 
 
 def run_scenario(ctx, key, stop_at=None):
@@ -875,9 +946,14 @@ def run_scenario(ctx, key, stop_at=None):
     try:
         NUL_FAMILY[0] = rng.random() < 0.4
         ctx.count("contents:with-nul-bytes" if NUL_FAMILY[0] else "contents:binary-without-nul")
+        fork = None
         if kind == "ghost":
             shape = ghost_shape(rng)
             revs = gen_history(rng, len(shape), rng.randint(4, 8), shape=shape)
+        elif kind == "fork":
+            shape, fp, fm = fork_shape(rng)
+            fork = (fp, fm)
+            revs = gen_history(rng, len(shape), rng.randint(3, 6), shape=shape)
         else:
             revs = gen_history(rng, rng.randint(6, 16 if big else 11), rng.randint(6, 12))
         from breezy.branchbuilder import BranchBuilder
@@ -940,6 +1016,17 @@ def run_scenario(ctx, key, stop_at=None):
             g = rng.choice(ghosty)
             plan.append((g.home, g.rid))
             ctx.count("plan:fetch-a-revision-with-a-foreign-ghost-parent-first")
+        if fork is not None:
+            # fetch the fork point, then the merge of its children; then a fresh single-shot reference is implied
+            # by the oracle's expected per-file parents
+            seq = [(fork[0], False), (fork[1], rng.random() < 0.3)]
+            if rng.random() < 0.5:
+                seq.append((revs[-1].rid, False))
+            for rev, fg in seq:
+                do_fetch(ctx, W, case_of("A", "T", rev, fg, mode), "A", "T", rev, fg, mode, batch)
+                if (stop_at is not None and n[0] >= stop_at) or W.tainted:
+                    return batch
+            return batch
         for j in range(nf):
             src = rng.choice("AAB")
             if plan and j == 0:
@@ -1004,7 +1091,7 @@ def scenario_keys(ctx):
     keys = []
     modes = ["local", "remote-src", "remote-tgt"]
     i = 0
-    for rnd in range(ctx.pick(1, 3)):
+    for rnd in range(ctx.pick(3, 4)):
         for (a, b) in pairs_for(ctx):
             keys.append((ctx.seed, i, a, b, modes[(i + ctx.seed) % 3] if not ctx.thorough() else modes[i % 3], ctx.thorough()))
             i += 1
@@ -1012,9 +1099,17 @@ def scenario_keys(ctx):
     keys.append((ctx.seed, i, "2a", "2a", "local", ctx.thorough()))
     # small histories built around a ghost that the other home has (targets that are not ancestry-closed)
     gp = [("2a", "2a"), ("pack-0.92", "pack-0.92"), ("knit", "2a"), ("pack-0.92", "2a"), ("knit", "pack-0.92"), ("1.9-rich-root", "2a")]
-    for j in range(ctx.pick(3, 12)):
+    for j in range(ctx.pick(5, 12)):
         a, b = gp[(ctx.seed + j) % len(gp)]
         keys.append((ctx.seed, i + 1 + j, a, b, modes[(j + ctx.seed) % 3], False, "ghost"))
+    # partial overlap exactly at a fork point, always including the non-rich-root -> rich-root upgrades,
+    # locally (InterDifferingSerializer) and through the smart server (stream route)
+    fp = [("pack-0.92", "2a"), ("knit", "2a"), ("pack-0.92", "rich-root-pack"), ("2a", "2a"), ("knit", "rich-root-pack"),
+          ("pack-0.92", "pack-0.92")]
+    nfork = ctx.pick(9, 24)
+    for j in range(nfork):
+        a, b = fp[j % len(fp)]
+        keys.append((ctx.seed, i + 100 + j, a, b, modes[(j // len(fp) + j + ctx.seed) % 3], False, "fork"))
     return keys
 
 
